@@ -144,8 +144,12 @@ pub fn check_history(h: &History, info: &mut CaseInfo) -> Outcome {
     for (k, s) in h.steps.iter().enumerate() {
         it.apply(s);
         let db = new_db_for(&m);
-        for (fi, text, _) in it.sent.iter().take(n0 + k + 1) {
-            db.analyze_file(PathBuf::from(it.files[*fi].loc.path()), text);
+        for (i, (fi, text, _)) in it.sent.iter().enumerate().take(n0 + k + 1) {
+            let p = PathBuf::from(it.files[*fi].loc.path());
+            if it.closed_before.contains(&i) {
+                db.cleanup_file_cache(&p);
+            }
+            db.analyze_file(p, text);
         }
         let skip: BTreeSet<PathBuf> = it.files.iter().filter(|f| !f.valid).map(|f| PathBuf::from(f.loc.path())).collect();
         if let Err(e) = inverse_relation(&db, &skip, info) {
